@@ -17,6 +17,8 @@
 
 /// The messages queue of the serial runtime
 static heap_declare(struct lp_msg *) queue;
+/// The number of LPs whose termination predicate has not held yet
+static lp_id_t to_terminate;
 
 /**
  * @brief Initialize the serial simulation environment
@@ -32,6 +34,7 @@ static void serial_simulation_init(void)
 	memset(lps, 0, sizeof(*lps) * global_config.lps);
 
 	n_lps_node = global_config.lps;
+	to_terminate = global_config.lps;
 
 	for(lp_id_t i = 0; i < global_config.lps; ++i) {
 		struct lp_ctx *lp = &lps[i];
@@ -51,6 +54,12 @@ static void serial_simulation_init(void)
 		heap_insert(queue, msg_is_before, msg);
 
 		common_msg_process(lp, msg);
+
+		// as in the parallel runtime, the predicate may already hold on the state produced by LP_INIT
+		if(global_config.committed(i, lp->state_pointer)) {
+			lp->termination_t = 0;
+			--to_terminate;
+		}
 
 		msg_allocator_free(heap_extract(queue, msg_is_before));
 	}
@@ -85,9 +94,8 @@ static void serial_simulation_fini(void)
 static int serial_simulation_run(void)
 {
 	timer_uint last_vt = timer_new();
-	lp_id_t to_terminate = global_config.lps;
 
-	while(likely(!heap_is_empty(queue))) {
+	while(likely(!heap_is_empty(queue) && to_terminate)) {
 		const struct lp_msg *msg = heap_min(queue);
 		struct lp_ctx *lp = &lps[msg->dest];
 		current_lp = lp;
